@@ -64,8 +64,8 @@ theorem one_paren {N : NumOps} (call : CallFn N) (ρ : ExtOracle N) (k : Nat) (e
   rw [evalE]; rfl
 
 /-- `wrap`: the result, in parentheses when it might be multi-valued, has the one-value semantics -/
-theorem wrap_sound {api : EvalApi} {good : Expr → Prop} (hs : EvalSound api good)
-    {N : NumOps} (call : CallFn N) (ρ : ExtOracle N) (k : Nat) (env : Env N) (t : Expr) (hg : good t)
+theorem wrap_sound {N : NumOps} {api : EvalApi} {good : Expr → Prop} (hs : EvalSound N api good)
+    (call : CallFn N) (ρ : ExtOracle N) (k : Nat) (env : Env N) (t : Expr) (hg : good t)
     (σ σ' : State N) (vs : List (Val N)) (h : one (evalE call ρ k env t σ) = .ok vs σ') :
     evalE call ρ k env (wrap api t) σ = .ok vs σ' := by
   unfold wrap
@@ -91,8 +91,8 @@ theorem retainElifs_stopped (api : EvalApi) (elifs : List (Expr × Expr)) (st : 
 def elseAfter (st : Retain Expr) (e : Expr) : Expr :=
   if st.keepNext then e else st.replaceElse.getD .nil
 
-theorem retainElifs_refines {api : EvalApi} {good : Expr → Prop} (hs : EvalSound api good)
-    {N : NumOps} (call : CallFn N) (ρ : ExtOracle N) (k : Nat) (env : Env N) (e : Expr)
+theorem retainElifs_refines {N : NumOps} {api : EvalApi} {good : Expr → Prop} (hs : EvalSound N api good)
+    (call : CallFn N) (ρ : ExtOracle N) (k : Nat) (env : Env N) (e : Expr)
     (elifs : List (Expr × Expr)) (hg : elifsOk api good elifs) (σ σ' : State N) (vs : List (Val N))
     (h : tailSem call ρ k env elifs e σ = .ok vs σ') :
     tailSem call ρ k env (retainElifs api elifs {}).1 (elseAfter (retainElifs api elifs {}).2 e) σ = .ok vs σ' := by
@@ -147,8 +147,8 @@ theorem retainElifs_refines {api : EvalApi} {good : Expr → Prop} (hs : EvalSou
             exact ih hgrest σ1 h
 
 /-- `simplify_if` refines, in every context -/
-theorem simplifyIf_refines {api : EvalApi} {good : Expr → Prop} (hs : EvalSound api good)
-    {N : NumOps} (call : CallFn N) (ρ : ExtOracle N) (k : Nat) (env : Env N)
+theorem simplifyIf_refines {N : NumOps} {api : EvalApi} {good : Expr → Prop} (hs : EvalSound N api good)
+    (call : CallFn N) (ρ : ExtOracle N) (k : Nat) (env : Env N)
     (elifs : List (Expr × Expr)) (e : Expr) (hge : good e) :
     ∀ (c t : Expr), condOk api good c → good t → elifsOk api good elifs →
     ∀ (σ σ' : State N) (vs : List (Val N)),
